@@ -173,7 +173,7 @@ func (p cfgPath) GetValue(cfg *Config, opt *options) (value, Error) {
 		}
 
 		if next == nil {
-			return nil, raiseMissing(cfg, field.String())
+			return nil, raiseMissingIn(cur, field.String())
 		}
 
 		cur = next
@@ -182,7 +182,7 @@ func (p cfgPath) GetValue(cfg *Config, opt *options) (value, Error) {
 	field := fields[0]
 	v, err := field.GetValue(opt, cur)
 	if err != nil {
-		return nil, raiseMissing(cfg, field.String())
+		return nil, raiseMissingIn(cur, field.String())
 	}
 	return v, nil
 }
